@@ -30,7 +30,11 @@ Acts(S) ==
       live == {t \in Topics : S.topics[t].exists}
       sub == {[a |-> "Sub", s |-> s, t |-> t, mode |-> m, chan |-> FALSE, bg |-> FALSE] : s \in Sessions, t \in live, m \in WantModes}
       leave == {[a |-> "Leave", s |-> s, t |-> t, unsub |-> b, chan |-> FALSE] : s \in Sessions, t \in live, b \in BOOLEAN}
-      setself == {[a |-> "SetSelf", s |-> s, t |-> t, mode |-> m, chan |-> FALSE] : s \in {x \in Sessions : \E t \in live : t \in M(S.sess[x].subs)}, t \in live, m \in WantModes \ {<<"-">>}}
+      setself == {[a |-> "SetSelf", s |-> s, t |-> t, mode |-> m, chan |-> FALSE] : s \in Sessions, t \in live, m \in WantModes \ {<<"-">>}}
+      deltopic == {[a |-> "DelTopic", s |-> s, t |-> t, hard |-> TRUE, chan |-> FALSE] : s \in Sessions, t \in live}
+      setdesc == {[a |-> "SetDesc", s |-> s, t |-> t, auth |-> m, public |-> p, chan |-> FALSE] :
+                    s \in {x \in Sessions : \E t \in live : t \in M(S.sess[x].subs)}, t \in live,
+                    m \in {<<"-">>, <<"J","R">>, <<"N">>}, p \in {"-", "x"}}
       setother == {[a |-> "SetOther", s |-> s, t |-> t, u |-> u, mode |-> m, chan |-> FALSE] :
                      s \in {x \in Sessions : \E t \in live : t \in M(S.sess[x].subs)}, t \in live, u \in Users, m \in GivenModes}
       delsub == {[a |-> "DelSub", s |-> s, t |-> t, u |-> u, chan |-> FALSE] : s \in Sessions, t \in live, u \in Users}
@@ -40,7 +44,9 @@ Acts(S) ==
                 s \in Sessions, t \in live, w \in {"read", "recv"}, n \in 0..(MaxSeq + 1)}
       unload == {[a |-> "Unload", t |-> t] : t \in {x \in live : S.cache[x].loaded /\ S.cache[x].att = <<>>}}
   IN (IF "NewGrp" \in Kinds THEN newgrp ELSE {}) \cup (IF "Sub" \in Kinds THEN sub ELSE {})
-     \cup (IF "Leave" \in Kinds THEN leave ELSE {}) \cup (IF "SetSelf" \in Kinds THEN { x \in setself : x.t \in M(S.sess[x.s].subs)} ELSE {})
+     \cup (IF "Leave" \in Kinds THEN leave ELSE {}) \cup (IF "SetSelf" \in Kinds THEN setself ELSE {})
+     \cup (IF "DelTopic" \in Kinds THEN deltopic ELSE {})
+     \cup (IF "SetDesc" \in Kinds THEN {x \in setdesc : x.t \in M(S.sess[x.s].subs) /\ ~(x.auth = <<"-">> /\ x.public = "-")} ELSE {})
      \cup (IF "SetOther" \in Kinds THEN { x \in setother : x.t \in M(S.sess[x.s].subs) /\ x.u # SessUser[x.s]} ELSE {})
      \cup (IF "DelSub" \in Kinds THEN delsub ELSE {}) \cup (IF "Pub" \in Kinds THEN pub ELSE {})
      \cup (IF "Note" \in Kinds THEN note ELSE {}) \cup (IF "Unload" \in Kinds THEN unload ELSE {})
